@@ -1,0 +1,338 @@
+//go:build verif
+
+// Contracts for package storage (property C09, used by C06/C01).
+// Comment-only file: invisible to the compiler without -tags verif and
+// contains no executable code with it. Read by /verif/govc.
+
+package storage
+
+// ---------------------------------------------------------------- vocabulary
+//
+// kvmap(x)     : the Go map that holds the key/value layer of a Store
+//                (session cache, tx session, or a gas wrapper around one)
+// exhausted(x) : a gas-metered wrapper refuses reads/writes (gas limit reached)
+// gasfull(g)   : the gas calculator has reached its limit
+// root(x)      : the session cache at the bottom of a stack of gas wrappers
+// sparent(x)   : the session cache a tx session commits into
+// treeHas/treeVal(cs): the working IAVL tree of a ChainState as a map
+// tomb(b)      : b is the tombstone marker
+
+//@ model kvmap(Store) map[string][]byte
+//@ model exhausted(Store) bool
+//@ model gasfull(GasCalculator) bool
+//@ model sparent(Session) *sessionCache
+//@ model root(SessionedDirectStorage) *sessionCache
+//@ model treeHas(*ChainState) array[string]bool
+//@ model treeVal(*ChainState) array[string]bytes
+
+//@ repr kvmap(self *sessionCache) = self.store
+//@ repr kvmap(self *cacheSession) = self.store
+//@ repr kvmap(self *GasStore) = kvmap(self.SessionedDirectStorage)
+//@ repr kvmap(self *NoGasStore) = kvmap(self.SessionedDirectStorage)
+//@ repr exhausted(self *sessionCache) = false
+//@ repr exhausted(self *cacheSession) = false
+//@ repr exhausted(self *GasStore) = gasfull(self.GasCalculator) || exhausted(self.SessionedDirectStorage)
+//@ repr exhausted(self *NoGasStore) = exhausted(self.SessionedDirectStorage)
+//@ repr gasfull(self *gasCalculator) = self.consumed >= self.limit
+//@ repr sparent(self *cacheSession) = self.parent
+//@ repr root(self *sessionCache) = self
+//@ repr root(self *GasStore) = root(self.SessionedDirectStorage)
+//@ repr root(self *NoGasStore) = root(self.SessionedDirectStorage)
+
+//@ ghost func tomb(b bytes) bool = str(b) == TOMBSTONE
+
+// kidx(x)[k]: ghost index of key k in the ordered key list of a layer (witness for "k is in keys")
+//@ model kidx(Store) array[string]int
+// wfl(x): the layer x is well formed (representation invariant of the concrete type)
+//@ model wfl(Store) bool nodispatch
+// rep(x): the hidden representation of a layer (what an interface-level write may touch)
+//@ footprint rep(self *sessionCache) = mapof(self.store), mapof(self.done), self.keys, kidx(self)
+//@ footprint rep(self *cacheSession) = mapof(self.store), mapof(self.done), self.keys, kidx(self)
+//@ repr wfl(self *sessionCache) = wfSC(self)
+//@ repr wfl(self *cacheSession) = wfCS(self) && wfSC(self.parent)
+//@ repr wfl(self *GasStore) = self != nil && self.GasCalculator != nil && self.SessionedDirectStorage != nil && wfl(self.SessionedDirectStorage)
+//@ repr wfl(self *NoGasStore) = self != nil && self.SessionedDirectStorage != nil && wfl(self.SessionedDirectStorage)
+
+// well-formedness of a key/value layer: maps allocated; the ordered key list holds exactly the
+// keys of the map, each once (kidx is the inverse of keys); done marks exactly those keys
+//@ ghost func wfSC(c *sessionCache) bool = c != nil && c.store != nil && c.done != nil && (forall k string :: has(c.store, k) ==> (has(c.done, k) && c.done[k] && 0 <= kidx(c)[k] && kidx(c)[k] < len(c.keys) && c.keys[kidx(c)[k]] == k)) && (forall j int :: 0 <= j && j < len(c.keys) ==> has(c.store, c.keys[j]) && kidx(c)[c.keys[j]] == j) && (forall k string :: has(c.done, k) && c.done[k] ==> has(c.store, k))
+//@ ghost func wfCS(c *cacheSession) bool = c != nil && c.store != nil && c.done != nil && c.parent != nil && c.parent != c && c.store != c.parent.store && c.done != c.parent.done && (forall k string :: has(c.store, k) ==> (has(c.done, k) && c.done[k] && 0 <= kidx(c)[k] && kidx(c)[k] < len(c.keys) && c.keys[kidx(c)[k]] == k)) && (forall j int :: 0 <= j && j < len(c.keys) ==> has(c.store, c.keys[j]) && kidx(c)[c.keys[j]] == j) && (forall k string :: has(c.done, k) && c.done[k] ==> has(c.store, k))
+
+// ---------------------------------------------------------------- gas
+
+//@ interface GasCalculator
+//@   method Consume
+//@     modifies gasfull(self)
+//@     ensures arg2 ==> result                                            // C09.gas
+//@     ensures !arg2 && old(gasfull(self)) ==> !result && gasfull(self)   // C09.gas
+//@     ensures !arg2 && !old(gasfull(self)) ==> result                    // C09.gas
+
+//@ func (*gasCalculator).Consume
+//@   implements GasCalculator
+//@   modifies g.consumed
+//@   ensures allowOverflow ==> result && g.consumed == wrap64(old(g.consumed) + wrap64(amount * category))   // C09.gas
+//@   ensures !allowOverflow && old(g.consumed) >= old(g.limit) ==> !result && g.consumed == old(g.consumed)   // C09.gas
+//@   ensures !allowOverflow && old(g.consumed) < old(g.limit) ==> result && g.consumed == wrap64(old(g.consumed) + wrap64(amount * category))   // C09.gas
+
+//@ func (gasCalculator).IsEnough
+//@   modifies nothing
+//@   ensures result == (g.consumed >= g.limit)      // C09.gas
+
+//@ func (gasCalculator).GetLeft
+//@   modifies nothing
+//@   ensures g.consumed >= g.limit ==> result == 0                              // C09.gas
+//@   ensures g.consumed < g.limit ==> result == wrapu64(wrap64(g.limit - g.consumed))   // C09.gas
+
+// ---------------------------------------------------------------- interface Store (shared by Session and SessionedDirectStorage)
+
+//@ interface Store
+//@   method Get
+//@     requires kvmap(self) != nil
+//@     modifies exhausted(self)
+//@     ensures err == nil ==> has(kvmap(self), str(arg0)) && result == kvmap(self)[str(arg0)]      // C09.layer-get
+//@     ensures err != nil ==> !has(kvmap(self), str(arg0)) || old(exhausted(self))                  // C09.layer-get
+//@   method Exists
+//@     requires kvmap(self) != nil
+//@     modifies exhausted(self)
+//@     ensures result ==> has(kvmap(self), str(arg0))                                                 // C09.layer-exists
+//@     ensures !result ==> !has(kvmap(self), str(arg0)) || old(exhausted(self))                      // C09.layer-exists
+//@   method Set
+//@     requires kvmap(self) != nil
+//@     modifies kvmap(self)[str(arg0)], exhausted(self), rep(self)
+//@     ensures forall k string :: k != str(arg0) ==> has(kvmap(self), k) == old(has(kvmap(self), k)) && kvmap(self)[k] == old(kvmap(self)[k])   // C09.layer-set
+//@     ensures err == nil ==> has(kvmap(self), str(arg0)) && kvmap(self)[str(arg0)] == arg1          // C09.layer-set
+//@     ensures old(wfl(self)) ==> wfl(self)                                                            // C09.wf
+//@     ensures err != nil ==> old(exhausted(self)) && has(kvmap(self), str(arg0)) == old(has(kvmap(self), str(arg0))) && kvmap(self)[str(arg0)] == old(kvmap(self)[str(arg0)])   // C09.layer-set
+//@   method Delete
+//@     requires kvmap(self) != nil
+//@     modifies kvmap(self)[str(arg0)], exhausted(self), rep(self)
+//@     ensures forall k string :: k != str(arg0) ==> has(kvmap(self), k) == old(has(kvmap(self), k)) && kvmap(self)[k] == old(kvmap(self)[k])   // C09.layer-delete
+//@     ensures err == nil ==> has(kvmap(self), str(arg0)) && tomb(kvmap(self)[str(arg0)])            // C09.layer-delete
+//@     ensures old(wfl(self)) ==> wfl(self)                                                            // C09.wf
+//@     ensures err != nil ==> old(exhausted(self)) && has(kvmap(self), str(arg0)) == old(has(kvmap(self), str(arg0))) && kvmap(self)[str(arg0)] == old(kvmap(self)[str(arg0)])   // C09.layer-delete
+
+//@ interface Session
+//@   method Commit
+//@     requires wfl(self) && sparent(self) != nil
+//@     modifies mapof(sparent(self).store), mapof(sparent(self).done), sparent(self).keys, kidx(sparent(self))
+//@     ensures wfSC(sparent(self))                                                                    // C09.wf
+//@     ensures result                                                                                 // C09.commit-exact
+//@     ensures forall k string :: has(sparent(self).store, k) == (has(kvmap(self), k) || old(has(sparent(self).store, k)))   // C09.commit-exact
+//@     ensures forall k string :: has(kvmap(self), k) ==> sparent(self).store[k] == kvmap(self)[k]   // C09.commit-exact
+//@     ensures forall k string :: !has(kvmap(self), k) ==> sparent(self).store[k] == old(sparent(self).store[k])   // C09.commit-exact
+
+//@ interface SessionedDirectStorage
+//@   method BeginSession
+//@     requires root(self) != nil
+//@     modifies nothing
+//@     ensures result != nil && fresh(result) && sparent(result) == root(self)                        // C09.session-begin
+//@     ensures kvmap(result) != nil && fresh(kvmap(result)) && (forall k string :: !has(kvmap(result), k))   // C09.session-begin
+//@     ensures dyntype(result, "*cacheSession")                                                       // C09.session-begin
+//@     ensures old(wfl(self)) ==> wfl(result)                                                         // C09.session-begin
+
+// ---------------------------------------------------------------- sessionCache
+
+//@ func (*sessionCache).Get
+//@   implements Store
+//@   modifies nothing
+
+//@ func (*sessionCache).Exists
+//@   implements Store
+//@   modifies nothing
+
+//@ func (*sessionCache).Set
+//@   implements Store
+//@   modifies c.store[str(key)], c.done[str(key)], c.keys, kidx(c)
+//@   update kidx(c) := old(has(c.done, str(key)) && c.done[str(key)]) ? old(kidx(c)) : old(kidx(c))[str(key) := old(len(c.keys))]
+//@   ensures old(wfSC(c)) && !old(has(c.store, str(key))) ==> kidx(c)[str(key)] == old(len(c.keys))   // C09.order
+//@   ensures old(wfSC(c)) ==> wfSC(c)                                                                 // C09.wf
+//@   ensures old(has(c.done, str(key)) && c.done[str(key)]) ==> c.keys == old(c.keys)                 // C09.order
+//@   ensures !old(has(c.done, str(key)) && c.done[str(key)]) ==> len(c.keys) == old(len(c.keys)) + 1 && c.keys[old(len(c.keys))] == str(key)   // C09.order
+//@   ensures forall j int :: 0 <= j && j < old(len(c.keys)) ==> c.keys[j] == old(c.keys[j])            // C09.order
+
+//@ func (*sessionCache).Delete
+//@   implements Store
+//@   modifies c.store[str(key)], c.done[str(key)], c.keys, kidx(c)
+//@   update kidx(c) := old(has(c.done, str(key)) && c.done[str(key)]) ? old(kidx(c)) : old(kidx(c))[str(key) := old(len(c.keys))]
+//@   ensures old(wfSC(c)) && !old(has(c.store, str(key))) ==> kidx(c)[str(key)] == old(len(c.keys))   // C09.order
+//@   ensures old(wfSC(c)) ==> wfSC(c)                                                                 // C09.wf
+//@   ensures old(has(c.done, str(key)) && c.done[str(key)]) ==> c.keys == old(c.keys)                 // C09.order
+//@   ensures !old(has(c.done, str(key)) && c.done[str(key)]) ==> len(c.keys) == old(len(c.keys)) + 1 && c.keys[old(len(c.keys))] == str(key)   // C09.order
+//@   ensures forall j int :: 0 <= j && j < old(len(c.keys)) ==> c.keys[j] == old(c.keys[j])            // C09.order
+
+//@ func (*sessionCache).BeginSession
+//@   implements SessionedDirectStorage
+//@   expands *cacheSession
+//@   update wfl(result) := wfCS(unbox(result, "*cacheSession")) && wfSC(c)
+//@   modifies nothing
+//@   ensures wfCS(unbox(result, "*cacheSession"))                 // C09.session-begin
+
+// ---------------------------------------------------------------- cacheSession
+
+//@ func (*cacheSession).Get
+//@   implements Store
+//@   modifies nothing
+
+//@ func (*cacheSession).Exists
+//@   implements Store
+//@   modifies nothing
+
+//@ func (*cacheSession).Set
+//@   implements Store
+//@   modifies c.store[str(key)], c.done[str(key)], c.keys, kidx(c)
+//@   update kidx(c) := old(has(c.done, str(key)) && c.done[str(key)]) ? old(kidx(c)) : old(kidx(c))[str(key) := old(len(c.keys))]
+//@   ensures old(wfCS(c)) && !old(has(c.store, str(key))) ==> kidx(c)[str(key)] == old(len(c.keys))   // C09.order
+//@   ensures old(wfCS(c)) ==> wfCS(c)                                                                 // C09.wf
+//@   ensures c.parent == old(c.parent)
+//@   ensures old(has(c.done, str(key)) && c.done[str(key)]) ==> c.keys == old(c.keys)                 // C09.order
+//@   ensures !old(has(c.done, str(key)) && c.done[str(key)]) ==> len(c.keys) == old(len(c.keys)) + 1 && c.keys[old(len(c.keys))] == str(key)   // C09.order
+//@   ensures forall j int :: 0 <= j && j < old(len(c.keys)) ==> c.keys[j] == old(c.keys[j])            // C09.order
+
+//@ func (*cacheSession).Delete
+//@   implements Store
+//@   modifies c.store[str(key)], c.done[str(key)], c.keys, kidx(c)
+//@   update kidx(c) := old(has(c.done, str(key)) && c.done[str(key)]) ? old(kidx(c)) : old(kidx(c))[str(key) := old(len(c.keys))]
+//@   ensures old(wfCS(c)) && !old(has(c.store, str(key))) ==> kidx(c)[str(key)] == old(len(c.keys))   // C09.order
+//@   ensures old(wfCS(c)) ==> wfCS(c)                                                                 // C09.wf
+//@   ensures old(has(c.done, str(key)) && c.done[str(key)]) ==> c.keys == old(c.keys)                 // C09.order
+//@   ensures !old(has(c.done, str(key)) && c.done[str(key)]) ==> len(c.keys) == old(len(c.keys)) + 1 && c.keys[old(len(c.keys))] == str(key)   // C09.order
+//@   ensures forall j int :: 0 <= j && j < old(len(c.keys)) ==> c.keys[j] == old(c.keys[j])            // C09.order
+
+//@ func (*cacheSession).Commit
+//@   implements Session
+//@   modifies mapof(c.parent.store), mapof(c.parent.done), c.parent.keys, kidx(c.parent)
+//@   invariant loop1: wfSC(c.parent) && wfCS(c) && c.parent == old(c.parent) && 0 <= $i && $i <= len(c.keys)
+//@   invariant loop1: forall k string :: (has(c.store, k) && kidx(c)[k] < $i) ==> (has(c.parent.store, k) && c.parent.store[k] == c.store[k])
+//@   invariant loop1: forall k string :: !(has(c.store, k) && kidx(c)[k] < $i) ==> (has(c.parent.store, k) == old(has(c.parent.store, k)) && c.parent.store[k] == old(c.parent.store[k]))
+//@   ensures wfSC(c.parent)                                                                           // C09.wf
+
+// ---------------------------------------------------------------- iteration over a layer (trusted iterator contracts)
+
+//@ assume func (*sessionCache).Iterate
+//@   iterator
+//@   modifies nothing
+//@   count len(c.keys)
+//@   yields 0 <= $n && $n < len(c.keys) && str(y0) == c.keys[$n] && !isnil(y0) && has(c.store, c.keys[$n]) && y1 == c.store[c.keys[$n]]
+
+// ---------------------------------------------------------------- gas wrappers
+
+//@ func (*GasStore).Get
+//@   implements Store
+//@   modifies gasfull(g.GasCalculator), exhausted(g.SessionedDirectStorage)
+
+//@ func (*GasStore).Exists
+//@   implements Store
+//@   modifies gasfull(g.GasCalculator), exhausted(g.SessionedDirectStorage)
+
+//@ func (*GasStore).Set
+//@   implements Store
+//@   modifies gasfull(g.GasCalculator), exhausted(g.SessionedDirectStorage), kvmap(g.SessionedDirectStorage)[str(key)], rep(g.SessionedDirectStorage)
+
+//@ func (*GasStore).Delete
+//@   implements Store
+//@   modifies gasfull(g.GasCalculator), exhausted(g.SessionedDirectStorage), kvmap(g.SessionedDirectStorage)[str(key)], rep(g.SessionedDirectStorage)
+
+//@ func (*NoGasStore).Get
+//@   implements Store
+//@   modifies exhausted(g.SessionedDirectStorage)
+
+//@ func (*NoGasStore).Exists
+//@   implements Store
+//@   modifies exhausted(g.SessionedDirectStorage)
+
+//@ func (*NoGasStore).Set
+//@   implements Store
+//@   modifies exhausted(g.SessionedDirectStorage), kvmap(g.SessionedDirectStorage)[str(key)], rep(g.SessionedDirectStorage)
+
+//@ func (*NoGasStore).Delete
+//@   implements Store
+//@   modifies exhausted(g.SessionedDirectStorage), kvmap(g.SessionedDirectStorage)[str(key)], rep(g.SessionedDirectStorage)
+
+// ---------------------------------------------------------------- ChainState (IAVL is an assumed dependency: T-IAVL)
+//
+// treeHas/treeVal describe the working tree; the contracts below are the textbook map semantics
+// of iavl.MutableTree.{Get,Has,Set,Remove}; they are assumed, not proved.
+
+//@ assume func (*ChainState).Get
+//@   modifies nothing
+//@   ensures err == nil && (treeHas(state)[str(key)] ==> result == treeVal(state)[str(key)]) && (!treeHas(state)[str(key)] ==> isnil(result))
+
+//@ assume func (*ChainState).Exists
+//@   modifies nothing
+//@   ensures result == treeHas(state)[str(key)]
+
+//@ assume func (*ChainState).Set
+//@   modifies treeHas(state), treeVal(state)
+//@   ensures err == nil && treeHas(state) == old(treeHas(state))[str(key) := true] && treeVal(state) == old(treeVal(state))[str(key) := val]
+
+//@ assume func (*ChainState).Delete
+//@   modifies treeHas(state), treeVal(state)
+//@   ensures treeHas(state) == old(treeHas(state))[str(key) := false] && treeVal(state) == old(treeVal(state))
+
+// ---------------------------------------------------------------- State: the three-layer view
+//
+// vHas/vVal : what a read through the State sees (tx session, then block cache, then tree);
+//             a tombstone reads as absent (C09: "a deleted key reads as absent")
+// bHas/bVal : the same without the tx session (what survives a discarded session)
+
+//@ model vHas(*State) array[string]bool
+//@ model vVal(*State) array[string]bytes
+//@ model bHas(*State) array[string]bool
+//@ model bVal(*State) array[string]bytes
+//@ model sessOpen(*State) bool
+
+//@ repr sessOpen(self *State) = self.txSession != nil
+//@ repr bHas(self *State)[k string] = has(kvmap(self.cache), k) ? !tomb(kvmap(self.cache)[k]) : treeHas(self.cs)[k]
+//@ repr bVal(self *State)[k string] = has(kvmap(self.cache), k) ? kvmap(self.cache)[k] : treeVal(self.cs)[k]
+//@ repr vHas(self *State)[k string] = (self.txSession != nil && has(kvmap(self.txSession), k)) ? !tomb(kvmap(self.txSession)[k]) : bHas(self)[k]
+//@ repr vVal(self *State)[k string] = (self.txSession != nil && has(kvmap(self.txSession), k)) ? kvmap(self.txSession)[k] : bVal(self)[k]
+
+//@ ghost func wfState(s *State) bool = s != nil && s.cs != nil && s.cache != nil && wfl(s.cache) && kvmap(s.cache) != nil && root(s.cache) != nil && kvmap(s.cache) == root(s.cache).store && (s.txSession != nil ==> (wfl(s.txSession) && kvmap(s.txSession) != nil && kvmap(s.txSession) != kvmap(s.cache) && sparent(s.txSession) == root(s.cache) && dyntype(s.txSession, "*cacheSession") && refof(s.txSession) != refof(s.cache)))
+
+//@ func (*State).Get
+//@   requires wfState(s)
+//@   modifies exhausted(s.cache), exhausted(s.txSession)
+//@   ensures !old(exhausted(s.cache)) && vHas(s)[str(key)] ==> err == nil && result == vVal(s)[str(key)]     // C09.read-recent
+//@   ensures !old(exhausted(s.cache)) && !vHas(s)[str(key)] ==> err == nil && len(result) == 0                // C09.deleted-absent
+//@   ensures vHas(s)[str(key)] ==> err == nil && result == vVal(s)[str(key)]                                  // C09.read-recent-gas
+//@   ensures wfState(s)                                                                                       // C09.wf
+
+//@ func (*State).Exists
+//@   requires wfState(s)
+//@   modifies exhausted(s.cache), exhausted(s.txSession)
+//@   ensures !old(exhausted(s.cache)) && vHas(s)[str(key)] ==> result                                         // C09.read-recent
+//@   ensures !old(exhausted(s.cache)) && !vHas(s)[str(key)] ==> !result                                       // C09.deleted-absent
+//@   ensures wfState(s)                                                                                       // C09.wf
+
+//@ func (*State).Set
+//@   requires wfState(s)
+//@   modifies kvmap(s.cache)[str(key)], kvmap(s.txSession)[str(key)], exhausted(s.cache), exhausted(s.txSession), rep(s.cache), rep(s.txSession), vHas(s), vVal(s), bHas(s), bVal(s)
+//@   ensures err == nil && !tomb(value) ==> vHas(s) == old(vHas(s))[str(key) := true] && vVal(s) == old(vVal(s))[str(key) := value]   // C09.write-visible
+//@   ensures err != nil ==> vHas(s) == old(vHas(s)) && vVal(s) == old(vVal(s)) && bHas(s) == old(bHas(s)) && bVal(s) == old(bVal(s))   // C09.write-visible
+//@   ensures old(sessOpen(s)) ==> bHas(s) == old(bHas(s)) && bVal(s) == old(bVal(s))                          // C09.session-isolated
+//@   ensures sessOpen(s) == old(sessOpen(s)) && wfState(s)                                                    // C09.wf
+
+//@ func (*State).Delete
+//@   requires wfState(s)
+//@   modifies kvmap(s.cache)[str(key)], kvmap(s.txSession)[str(key)], exhausted(s.cache), exhausted(s.txSession), rep(s.cache), rep(s.txSession), vHas(s), vVal(s), bHas(s), bVal(s)
+//@   ensures err == nil && !old(exhausted(s.cache)) ==> vHas(s) == old(vHas(s))[str(key) := false]            // C09.deleted-absent
+//@   ensures old(sessOpen(s)) ==> bHas(s) == old(bHas(s)) && bVal(s) == old(bVal(s))                          // C09.session-isolated
+//@   ensures sessOpen(s) == old(sessOpen(s)) && wfState(s)                                                    // C09.wf
+
+//@ func (*State).BeginTxSession
+//@   requires wfState(s)
+//@   modifies s.txSession, vHas(s), vVal(s), sessOpen(s)
+//@   ensures sessOpen(s) && wfState(s)                                                                        // C09.session-begin
+//@   ensures bHas(s) == old(bHas(s)) && bVal(s) == old(bVal(s)) && vHas(s) == bHas(s) && vVal(s) == bVal(s)   // C09.session-begin
+
+//@ func (*State).DiscardTxSession
+//@   requires wfState(s)
+//@   modifies s.txSession, vHas(s), vVal(s), sessOpen(s)
+//@   ensures !sessOpen(s) && wfState(s)                                                                       // C09.discard
+//@   ensures bHas(s) == old(bHas(s)) && bVal(s) == old(bVal(s)) && vHas(s) == bHas(s) && vVal(s) == bVal(s)   // C09.discard
+
+//@ func (*State).CommitTxSession
+//@   requires wfState(s) && sessOpen(s)
+//@   modifies s.txSession, mapof(root(s.cache).store), mapof(root(s.cache).done), root(s.cache).keys, kidx(root(s.cache)), vHas(s), vVal(s), bHas(s), bVal(s), sessOpen(s)
+//@   ensures !sessOpen(s) && wfState(s)                                                                       // C09.session-commit
+//@   ensures bHas(s) == old(vHas(s)) && bVal(s) == old(vVal(s)) && vHas(s) == bHas(s) && vVal(s) == bVal(s)   // C09.session-commit
